@@ -12,8 +12,21 @@ import os
 
 from . import env
 
-TIMEZONES = ("Africa/Lagos", "UTC", "Asia/Singapore", "America/Bogota")
+# zones without daylight-saving transitions (a uniform local-time record cannot cross one),
+# including offsets that are not whole hours
+TIMEZONES = ("Africa/Lagos", "UTC", "Asia/Singapore", "America/Bogota", "Asia/Kolkata", "Asia/Kathmandu",
+             "Pacific/Kiritimati")
 T0 = datetime.datetime(2013, 3, 1, 0, 0, 0)
+# record origins: ordinary; not on the hour; before 1970 (negative epochs); after 2038
+T0_CHOICES = ("2013-03-01 00:00:00", "2013-03-01 00:00:00", "2013-03-01 00:00:00", "2021-07-15 00:07:00",
+              "1999-12-31 23:30:00", "1968-05-02 06:00:00", "2041-01-01 12:00:00")
+
+
+def spec_t0(spec):
+    text = spec.get("t0")
+    if not text:
+        return T0
+    return datetime.datetime.strptime(text, "%Y-%m-%d %H:%M:%S")
 
 
 def _r3(x):
@@ -239,6 +252,7 @@ def gen_spec(rng, size=None):
         "kind": "synthetic",
         "dt": dt, "s0": s0, "j0": j0, "z0": z0, "z_base": z_base,
         "timezone": rng.choice(TIMEZONES),
+        "t0": rng.choice(T0_CHOICES),
         "segments": segments,
         "gaps": gaps,
         "wl_per_step": k,
@@ -273,8 +287,10 @@ def render(spec):
     n = len(rain)
     fmt = "%Y-%m-%d %H:%M:%S"
 
+    t0 = spec_t0(spec)
+
     def stamp(i):
-        return (T0 + datetime.timedelta(seconds=i * dt)).strftime(fmt)
+        return (t0 + datetime.timedelta(seconds=i * dt)).strftime(fmt)
 
     p_lines = ["datetime,precipitation rate (mm/h)"]
     for i in range(n):
@@ -294,7 +310,7 @@ def render(spec):
             value = zeta[i]
         else:
             value = _r3(zeta[i] + (zeta[i + 1] - zeta[i]) * j / float(k))
-        when = (T0 + datetime.timedelta(seconds=f * (dt // k))).strftime(fmt)
+        when = (t0 + datetime.timedelta(seconds=f * (dt // k))).strftime(fmt)
         z_lines.append("%s,%r" % (when, value))
     return ("\n".join(p_lines) + "\n", "\n".join(e_lines) + "\n", "\n".join(z_lines) + "\n")
 
